@@ -196,11 +196,12 @@ struct G {
         model::Decoded d = model::decode(phrase, coin, lang);
         if (!o.fail && d.status == ST_OK && model::supported(d.seed.features, mask)) seeds[{t, s}] = d.seed;
     }
-    void encode(int t, int s, int lang, unsigned coin) { Op& o = emit(OP_ENCODE, t, s); o.a = lang; o.b = coin; }
-    void store(int t, int s) { emit(OP_STORE, t, s); }
-    void keygen(int t, int s, unsigned coin, u64 size) { Op& o = emit(OP_KEYGEN, t, s); o.a = coin; o.b = size; }
+    // operations that do not allocate today carry fault masks too: a refactoring may make them allocate
+    void encode(int t, int s, int lang, unsigned coin) { Op& o = emit(OP_ENCODE, t, s); o.a = lang; o.b = coin; o.fail = maybe_fail(); }
+    void store(int t, int s) { Op& o = emit(OP_STORE, t, s); o.fail = maybe_fail(); }
+    void keygen(int t, int s, unsigned coin, u64 size) { Op& o = emit(OP_KEYGEN, t, s); o.a = coin; o.b = size; o.fail = maybe_fail(); }
     void crypt(int t, int s, const std::string& pw) {
-        Op& o = emit(OP_CRYPT, t, s); o.data.assign(pw.begin(), pw.end());
+        Op& o = emit(OP_CRYPT, t, s); o.data.assign(pw.begin(), pw.end()); o.fail = maybe_fail();
         auto it = seeds.find({t, s});
         if (it == seeds.end()) return;
         std::string n = model::lib_normalise(pw);
@@ -299,6 +300,32 @@ static void choose_langs(G& g) {
     if (g.rng.chance(1, 3)) { for (int i = 0; i < n; ++i) g.langs_enabled.push_back(i); return; }
     int k = 1 + (int)g.rng.below(3);
     for (int i = 0; i < k; ++i) g.langs_enabled.push_back((int)g.rng.below(n));
+}
+
+// A concurrent plan for a property other than C20: several threads work on their own seeds at once; what the
+// property speaks about (feature verdicts, birthdays, results of the password operation) must be what each thread
+// observes when it runs alone.
+static Plan make_concurrent(G& g, const char* prop) {
+    g.plan.mode = "preempt";
+    g.plan.ntasks = g.ntasks = 2 + (int)g.rng.below(2);
+    prologue(g, 1 + (int)g.rng.below(3), (int)g.rng.below(2), (int)g.rng.below(3), (unsigned)g.rng.below(8), 7);
+    std::string p(prop);
+    for (int t = 0; t < g.ntasks; ++t) {
+        if (g.rng.chance(1, 2)) g.create(t, 0, g.rng.below(8), g.secret_kind(), {g.clock_reading()});
+        else g.load_seed(t, 0, g.fabricate((unsigned)g.rng.below(8) | (g.rng.chance(1, 4) ? 16 : 0), (int)g.rng.below(1024)));
+    }
+    int n = 2 + (int)g.rng.below(4);
+    for (int i = 0; i < n; ++i) for (int t = 0; t < g.ntasks; ++t) {
+        if (!g.live(t, 0)) continue;
+        AbsSeed sd = g.seeds[{t, 0}];
+        int li = g.pick_lang(); unsigned coin = g.pick_coin();
+        if (g.live(t, 1)) g.free_seed(t, 1);
+        if (p == "C12" && g.rng.chance(1, 2)) { g.crypt(t, 0, g.password()); g.store(t, 0); g.emit(OP_ISENC, t, 0); continue; }
+        if (g.rng.chance(1, 2)) g.decode(t, 1, g.valid_phrase(sd, li, coin, (int)g.rng.below(64)), coin, g.rng.chance(1, 2) ? -1 : li);
+        else g.load_seed(t, 1, sd);
+        if (g.live(t, 1)) { g.emit(OP_GETB, t, 1); { Op& o = g.emit(OP_GETF, t, 1); o.a = 7; } g.emit(OP_ISENC, t, 1); g.store(t, 1); }
+    }
+    return g.plan;
 }
 
 // ------------------------------------------------------------------------------------------------ per property
@@ -413,6 +440,7 @@ static Plan make_C10(u64 seed, int variant) {
         return g.plan;
     }
     g.ntasks = 1 + (int)g.rng.below(3); g.plan.ntasks = g.ntasks;
+    if (variant % 8 == 7) return make_concurrent(g, "C10");
     prologue(g, (int)g.rng.below(4), (int)g.rng.below(2), (int)g.rng.below(3), (unsigned)g.rng.below(8), g.rng.below(8));
     Weights w; w.enable = 12; w.fabricate = 14; w.crypt = 5; w.keygen = 0; w.decodebad = 1; w.loadbad = 1; w.get = 8; w.inject = 2;
     walk(g, 6 + (int)g.rng.below(30), w, true);
@@ -423,6 +451,7 @@ static Plan make_C11(u64 seed, int variant) {
     G g(seed); g.plan.prop = "C11";
     choose_langs(g);
     g.plan.ntasks = g.ntasks = 1 + (int)g.rng.below(2);
+    if (variant >= 128 && variant % 8 == 7) return make_concurrent(g, "C11");
     unsigned opt = (unsigned)g.rng.below(8);       // both the injected clock and the libc fallback
     prologue(g, (int)g.rng.below(4), (int)g.rng.below(2), (int)g.rng.below(3), opt, 7);
     std::vector<u64> readings;
@@ -462,7 +491,8 @@ static Plan make_C12(u64 seed, int variant) {
     G g(seed); g.plan.prop = "C12";
     choose_langs(g);
     g.plan.ntasks = g.ntasks = 1 + (int)g.rng.below(2);
-    (void)variant;
+    if (variant % 8 == 7) return make_concurrent(g, "C12");
+    g.alloc_fail_pct = (variant % 4 == 2) ? 30 : 0;
     prologue(g, 1 + (int)g.rng.below(3), 1, (int)g.rng.below(3), (unsigned)g.rng.below(8), g.rng.chance(1, 2) ? 7 : (7 | (g.rng.next() << 3)));
     int t = 0;
     int nseeds = 1 + (int)g.rng.below(3);
